@@ -188,6 +188,25 @@ SNIPPETS = [
     'x = ' + '[' * 60 + '1' + ']' * 60 + '\ny = ' + 'f(' * 80 + '0' + ')' * 80 + '\nx\ny\n',
     # many consecutive regions in one scope (names are resolved region by region)
     'c = 0\n' + ''.join('if c:\n    v%d = %d\n' % (i, i) for i in range(40)) + 'v39\nc\n',
+    # a starred element of a target that is itself a list / tuple display
+    '*[a, b], c = x\n*(d, e), f = 1, 2, 3\nfor *[g, h], i in x:\n    pass\nwith x as (*[j, k], l):\n    pass\n[1 for *[m, n], o in x]\na\nc\ne\nh\nk\n',
+    # a walrus after a comprehension inside expressions analysed beside the main flow of a class body
+    'class a:\n    try:\n        pass\n    except [x for x in y] or (g := e):\n        pass\na.g\na().g\n',
+    'class A:\n    z = [1 for a in f([x for x in y], g := 1)]\nA.g\nclass B:\n    class C(f([x for x in y]), (h := 1)): pass\n    if c: pass\nB.h\nB().C\n',
+    'class A:\n    try:\n        import json\n    except ImportError if all(x for x in y) else (err := OSError):\n        json = None\nA().json\nA.err\n',
+    # a function as a base class whose result is not an instance
+    "if c: x = 1\nelse: x = 's'\ndef f(): return x\nclass A(f): pass\nA().real\nA.real\n",
+    'import os.path\ndef f(): return os\nclass A(f): pass\nA().path\nclass K:\n    def __init__(self):\n        self.v = 1\n        self.v = ""\n    def g(self): return self.v\nclass D(K().g): pass\nD().x\n',
+    # non-ASCII text before names on the same line (ast columns count bytes, the cursor counts characters)
+    '\u00e9\u00e9\u00e9\u00e9\u00e9;a=1;a\n\u8a9e\u8a9e\u8a9e;b=1;b\ns = "\u00e9\u00e9\u00e9\u00e9\u00e9\u00e9\u00e9\u00e9"; c = 1; c\n',
+    # long flat chains of definitions (no nesting anywhere)
+    "s = ''\n" + "s = s.strip()\n" * 300 + "s.x\n",
+    'a0 = 1\n' + ''.join('a%d = a%d\n' % (i + 1, i) for i in range(400)) + 'a400.real\n',
+    'def f0(): return 1\n' + ''.join('def f%d(): return f%d()\n' % (i + 1, i) for i in range(400)) + 'f400().real\n',
+    'class C0: pass\n' + ''.join('class C%d(C%d): pass\n' % (i + 1, i) for i in range(700)) + 'C700().x\n',
+    'x0 = 1\n' + ''.join('def f%d(): return x%d\nx%d = f%d()\n' % (i, i, i + 1, i) for i in range(250)) + 'x250.real\n',
+    'x = [a ' + 'for a in b ' * 200 + ']\nx.y\n',
+    '\n'.join(sum([['    ' * i + 'def f%d():' % i] + ['    ' * (i + 1) + 'if a: x%d = 1' % j for j in range(16)] for i in range(5)], []) + ['    ' * 5 + 'x0.real']) + '\n',
 ]
 LONG_CHAIN = 'c = 0\n' + ''.join('if c:\n    v%d = %d\n' % (i % 7, i) for i in range(400)) + 'v3\nc\n'
 
